@@ -43,6 +43,8 @@ pub enum Step {
     SetLimit { #[serde(with = "i128s")] limit: i128 },
     Uninstall,
     Spend { #[serde(with = "i128s")] amount: i128, ctx: Ctx, signers: u32, by_account: bool },
+    /// `count` consecutive honest transfers of `amount` in the current ledger (fills the bounded history)
+    Burst { count: u32, #[serde(with = "i128s")] amount: i128 },
     Advance { n: u32 },
 }
 #[derive(Clone, Debug, Serialize, Deserialize)]
@@ -101,7 +103,7 @@ impl Check for Spending {
         Some(Step::Advance { n })
     }
     fn probes(&self, _prop: &str) -> std::vec::Vec<&'static str> {
-        vec!["probe.history_near_bound", "probe.malformed_context"]
+        vec!["probe.history_near_bound", "probe.history_capacity_refusal", "probe.malformed_context"]
     }
     fn dup_ok(&self, _s: &Step) -> bool {
         true
@@ -116,9 +118,20 @@ impl Check for Spending {
         let mut steps = vec![];
         let period = 1 + if rng.chance(50) { rng.below(12) } else { rng.below(400) } as u32;
         let limit: i128 = match rng.below(4) { 0 => 1 + rng.below(50) as i128, 1 => i128::MAX, _ => 100 + rng.below(10_000) as i128 };
+        // capacity scenario (rare, expensive): fill the 1 000-entry history inside one window, let entries expire, go on
+        let capacity_run = rng.below(if tier == Tier::Quick { 400 } else { 250 }) == 0;
+        let (limit, period) = if capacity_run { (i128::MAX, 200 + rng.below(2000) as u32) } else { (limit, period) };
         for k in 0..nsteps {
-            let s = if k == 0 && rng.chance(85) {
+            let s = if k == 0 && (capacity_run || rng.chance(85)) {
                 Step::Install { limit, period }
+            } else if capacity_run && k == 1 {
+                Step::Burst { count: 990 + rng.below(15) as u32, amount: 1 + rng.below(3) as i128 }
+            } else if capacity_run && k == 2 {
+                Step::Advance { n: rng.below(3) as u32 }
+            } else if capacity_run && k == 3 {
+                Step::Burst { count: 5 + rng.below(12) as u32, amount: 1 }
+            } else if capacity_run && k == 4 {
+                Step::Advance { n: period - rng.below(3) as u32 }
             } else {
                 match rng.below(100) {
                     0..=3 => Step::Install { limit: match rng.below(4) { 0 => 0, 1 => -5, _ => 1 + rng.below(10_000) as i128 }, period: if rng.chance(15) { 0 } else { 1 + rng.below(50) as u32 } },
@@ -169,6 +182,14 @@ impl Check for Spending {
                     if *by_account && m.would_accept(*amount, *ctx, *signers) {
                         let now = m.now;
                         m.hist.push((now, *amount));
+                    }
+                }
+                Step::Burst { count, amount } => {
+                    for _ in 0..*count {
+                        if m.would_accept(*amount, Ctx::Transfer, 1) {
+                            let now = m.now;
+                            m.hist.push((now, *amount));
+                        }
                     }
                 }
             }
@@ -247,6 +268,31 @@ impl Check for Spending {
                     if got {
                         m.installed = None;
                         m.hist.clear();
+                    }
+                }
+                Step::Burst { count, amount } => {
+                    let c = mk_ctx(*amount, Ctx::Transfer);
+                    let sg: Vec<Signer> = svec![e, signer.clone()];
+                    for j in 0..*count {
+                        let can = matches!(pc.try_can_enforce(&c, &sg, &rule, &acct), Ok(Ok(true)));
+                        let got = ac.try_call(&pol, &Symbol::new(e, "enforce"), &(c.clone(), sg.clone(), rule.clone(), acct.clone()).into_val(e)).is_ok();
+                        let would = m.would_accept(*amount, Ctx::Transfer, 1);
+                        st.tx("enforce", got);
+                        if can != got {
+                            return Err(violation("agree.can_enforce_eq_enforce", "enforce", i, format!("can_enforce={can} enforce ok={got} at transfer {j} of {s:?} now={} live entries {}", w.now(), m.live().len())));
+                        }
+                        if can != would {
+                            return Err(violation("spend.accept_iff_fits", "can_enforce", i, format!("can_enforce={can} model={would} at transfer {j} of {s:?} now={} live entries {} installed={:?}", w.now(), m.live().len(), m.installed)));
+                        }
+                        if got {
+                            m.hist.push((m.now, *amount));
+                        }
+                        if m.live().len() >= 990 {
+                            st.hit("probe.history_near_bound");
+                        }
+                        if !would && m.live().len() >= 1000 {
+                            st.hit("probe.history_capacity_refusal");
+                        }
                     }
                 }
                 Step::Spend { amount, ctx, signers, by_account } => {
